@@ -702,7 +702,7 @@ static void checkConfiguration(World& w, int i, const Op& op, const Obs& before,
 					}
 					// the slot the library sees may differ from the model's (requests the library ignores or resolves differently inside the batch): an ancestor whose
 					// current sub-state lies on the path is a possible stopping point whatever the model thinks its slot holds
-					if (stop < 0) for (size_t lv = 1; lv < path.size(); ++lv) if (cb.active[size_t(path[lv].first)] == path[lv].second) { stop = int(lv); break; }
+					{ int low = -1; for (size_t lv = 1; lv < path.size(); ++lv) if (cb.active[size_t(path[lv].first)] == path[lv].second) { low = int(lv); break; } if (low >= 0 && (stop < 0 || low < stop)) stop = low; }
 					if (getenv("VF_DEBUG_MODEL")) { fprintf(stderr, "model: P1 tag: stop=%d path=", stop); for (auto& pc : path) fprintf(stderr, "(%d,%d rq=%d act=%d) ", pc.first, pc.second, reqBeforeLast[size_t(pc.first)], cb.active[size_t(pc.first)]); fprintf(stderr, "\n"); }
 					if (stop >= 0) for (size_t lv = size_t(stop) + 1; lv < path.size(); ++lv) if (setOtherwise(lv)) tag = "batch_later_request_not_overriding";
 					bool earlierUtility = false; for (int k2 = 0; k2 < lastReal; ++k2) if (st.approved[size_t(k2)].kind == K_UTILIZE || st.approved[size_t(k2)].kind == K_RANDOMIZE) earlierUtility = true;
